@@ -1291,3 +1291,254 @@ func checkProgressAccumulated(c *core.Ctx, st *core.RuleStat, rule string, pi *P
 		}
 	}
 }
+
+// checkStepResultsCount: a step that did something counts as progress. In a function with a bool
+// result, the result of every call to a step of the same package that can consume or send a
+// message (a bool-returning function that reaches RetrieveIncoming or Send) flows into the value
+// the caller returns: as data, or through the short circuit `p = step() || p` (on the edge on which
+// the step returned true a phi that reaches the return gets the constant true). A step whose result
+// only steers a loop (`if !step() { break }`) can consume a message while the tick reports no
+// progress: the component goes to sleep with the rest of its input unread.
+func checkStepResultsCount(c *core.Ctx, st *core.RuleStat, rule string, pi *PkgInfo, what string) {
+	effectful := map[*ssa.Function]bool{}
+	for changed := true; changed; {
+		changed = false
+		for _, fn := range pi.Funcs {
+			if effectful[fn] {
+				continue
+			}
+			for _, b := range fn.Blocks {
+				for _, in := range b.Instrs {
+					cc := core.CallOf(in)
+					if cc == nil {
+						continue
+					}
+					if cc.IsInvoke() && (cc.Method.Name() == "RetrieveIncoming" || cc.Method.Name() == "Send") {
+						effectful[fn], changed = true, true
+					}
+					if cal := cc.StaticCallee(); cal != nil && effectful[cal] && !effectful[fn] {
+						effectful[fn], changed = true, true
+					}
+				}
+			}
+		}
+	}
+	isBoolFn := func(fn *ssa.Function) bool {
+		res := fn.Signature.Results()
+		if res.Len() != 1 {
+			return false
+		}
+		bt, ok := res.At(0).Type().Underlying().(*types.Basic)
+		return ok && bt.Kind() == types.Bool
+	}
+	for _, fn := range pi.Funcs {
+		if !isBoolFn(fn) {
+			continue
+		}
+		reachesReturn := func(v ssa.Value) bool {
+			seen := map[ssa.Value]bool{}
+			found := false
+			var fwd func(v ssa.Value, d int)
+			fwd = func(v ssa.Value, d int) {
+				if seen[v] || d > 10 || found || v.Referrers() == nil {
+					return
+				}
+				seen[v] = true
+				for _, r := range *v.Referrers() {
+					switch x := r.(type) {
+					case *ssa.Return:
+						found = true
+					case *ssa.Phi:
+						fwd(x, d+1)
+					case *ssa.BinOp:
+						fwd(x, d+1)
+					case *ssa.Store:
+						if al, ok := x.Addr.(*ssa.Alloc); ok && al.Referrers() != nil {
+							for _, rr := range *al.Referrers() {
+								if ld, ok := rr.(*ssa.UnOp); ok && ld.Op == token.MUL {
+									fwd(ld, d+1)
+								}
+							}
+						}
+					}
+				}
+			}
+			fwd(v, 0)
+			return found
+		}
+		for _, b := range fn.Blocks {
+			for _, in := range b.Instrs {
+				call, ok := in.(*ssa.Call)
+				if !ok {
+					continue
+				}
+				cal := call.Call.StaticCallee()
+				if cal == nil || cal.Pkg != fn.Pkg || !isBoolFn(cal) || !effectful[cal] || call.Referrers() == nil {
+					continue
+				}
+				st.Instances++
+				c.MarkAnalysed(fn)
+				counted := false
+				var visit func(v ssa.Value, neg bool, d int)
+				visit = func(v ssa.Value, neg bool, d int) {
+					if d > 4 || counted || v.Referrers() == nil {
+						return
+					}
+					for _, r := range *v.Referrers() {
+						switch x := r.(type) {
+						case *ssa.Return:
+							if !neg {
+								counted = true
+							}
+						case *ssa.BinOp:
+							if reachesReturn(x) {
+								counted = true
+							}
+						case *ssa.Phi:
+							if reachesReturn(x) {
+								counted = true
+							}
+						case *ssa.Store:
+							counted = true
+						case *ssa.UnOp:
+							if x.Op == token.NOT {
+								visit(x, !neg, d+1)
+							}
+						case *ssa.If:
+							// the edge taken when the step returned true
+							succ := x.Block().Succs[0]
+							if neg {
+								succ = x.Block().Succs[1]
+							}
+							for _, pin := range succ.Instrs {
+								phi, ok := pin.(*ssa.Phi)
+								if !ok {
+									break
+								}
+								for i, p := range succ.Preds {
+									if p == x.Block() {
+										if k, isC := phi.Edges[i].(*ssa.Const); isC && k.Value != nil && k.Value.Kind() == constant.Bool && constant.BoolVal(k.Value) && (reachesReturn(phi)) {
+											counted = true
+										}
+									}
+								}
+							}
+							// `if step() { progress = true }`: a store / phi further down is not followed;
+							// a return true on that edge counts
+							for _, sin := range succ.Instrs {
+								if ret, ok := sin.(*ssa.Return); ok && len(ret.Results) == 1 {
+									if k, isC := ret.Results[0].(*ssa.Const); isC && k.Value != nil && constant.BoolVal(k.Value) {
+										counted = true
+									}
+								}
+							}
+							// a block that only merges into a phi with true
+							if len(succ.Instrs) == 1 && len(succ.Succs) == 1 {
+								nxt := succ.Succs[0]
+								for _, pin := range nxt.Instrs {
+									phi, ok := pin.(*ssa.Phi)
+									if !ok {
+										break
+									}
+									for i, p := range nxt.Preds {
+										if p == succ {
+											if k, isC := phi.Edges[i].(*ssa.Const); isC && k.Value != nil && k.Value.Kind() == constant.Bool && constant.BoolVal(k.Value) && reachesReturn(phi) {
+												counted = true
+											}
+										}
+									}
+								}
+							}
+						}
+					}
+				}
+				visit(call, false, 0)
+				st.Ob(counted)
+				st.Sample("%s: the result of %s counts as progress: %v", core.FuncName(fn), cal.Name(), counted)
+				if !counted {
+					c.ReportAt(rule, fn, call.Pos(), "step-result-dropped:"+core.FuncName(fn)+":"+cal.Name(), core.FuncName(fn)+" calls "+cal.Name()+", which can consume or send a message, and does not let its result count towards the progress it returns: "+what)
+				}
+			}
+		}
+	}
+}
+
+// checkNoStoreBeforeRefusal: a handler that only looked at the head of its port (PeekIncoming in
+// its caller) and returns false leaves the message where it is and is offered the same message
+// again; it must not have changed the component's state on that path. In every function with a
+// bool result that receives a message or command as a parameter, no store to a field of the
+// receiver is followed by a `return false` - a request that is refused because an earlier one is
+// still running must not overwrite the parameters of the running one.
+func checkNoStoreBeforeRefusal(c *core.Ctx, st *core.RuleStat, rule string, pi *PkgInfo, onlyRecv string, what string) {
+	for _, fn := range pi.Funcs {
+		res := fn.Signature.Results()
+		if res.Len() != 1 || fn.Signature.Recv() == nil || len(fn.Params) < 2 {
+			continue
+		}
+		if bt, ok := res.At(0).Type().Underlying().(*types.Basic); !ok || bt.Kind() != types.Bool {
+			continue
+		}
+		if onlyRecv != "" && !strings.HasSuffix(namedTypeName(fn.Signature.Recv().Type()), onlyRecv) {
+			continue
+		}
+		// a message / command parameter: a pointer to a named struct type
+		isHandler := false
+		for _, prm := range fn.Params[1:] {
+			if pt, ok := prm.Type().(*types.Pointer); ok {
+				if _, named := pt.Elem().(*types.Named); named {
+					isHandler = true
+				}
+			}
+		}
+		if !isHandler {
+			continue
+		}
+		var g *core.Graph
+		recv := fn.Params[0]
+		for _, b := range fn.Blocks {
+			for _, in := range b.Instrs {
+				sto, ok := in.(*ssa.Store)
+				if !ok {
+					continue
+				}
+				fa, ok := sto.Addr.(*ssa.FieldAddr)
+				if !ok {
+					continue
+				}
+				// a field of the receiver, or of the component it embeds by pointer
+				base := fa.X
+				if ld, isLd := base.(*ssa.UnOp); isLd && ld.Op == token.MUL {
+					if efa, isFA := ld.X.(*ssa.FieldAddr); isFA {
+						base = efa.X
+					}
+				}
+				if base != ssa.Value(recv) {
+					continue
+				}
+				if g == nil {
+					g = core.BuildGraph(fn, 0, nil)
+				}
+				n := g.NodeOf(in)
+				if n == nil {
+					continue
+				}
+				st.Instances++
+				c.MarkAnalysed(fn)
+				var bad *core.Node
+				okW := g.Walk(core.After(n, nil), core.WalkOpts{ForwardOnly: true}, func(x core.State) {
+					r, isR := x.N.Instr.(*ssa.Return)
+					if !isR || len(r.Results) != 1 || bad != nil {
+						return
+					}
+					if core.EvalFact(x.N, r.Results[0], x.F) < 0 {
+						bad = x.N
+					}
+				})
+				st.Ob(okW && bad == nil)
+				if bad != nil {
+					c.ReportAt(rule, fn, in.Pos(), "store-before-refusal:"+core.FuncName(fn)+":"+fieldNameOf(fa), core.FuncName(fn)+" stores "+fieldNameOf(fa)+" and can then refuse the message ("+c.Position(bad.Instr.Pos())+": return false): "+what)
+				}
+			}
+		}
+	}
+}
